@@ -396,10 +396,10 @@ class InteractingNetworks(Network):
         :rtype: 2D array [node index, node index]
         :return: the subnetwork's adjacency matrix.
         """
-        #  Create igraph Graph object describing the subgraph
-        subgraph = self.graph.subgraph(node_list)
-        #  Get adjacency matrix
-        return np.array(subgraph.get_adjacency(type=2).data).astype(np.int8)
+        #  Rows and columns follow the order of node_list (igraph's subgraph
+        #  would silently sort the nodes)
+        nodes = np.asarray(node_list, dtype=int)
+        return self.sp_A[nodes, :][:, nodes].toarray().astype(np.int8)
 
     def cross_adjacency(self, node_list1, node_list2):
         """
@@ -481,19 +481,10 @@ class InteractingNetworks(Network):
         :rtype: square numpy array [node_index, node_index]
         :return: link weights submatrix
         """
-        weights = np.zeros((len(node_list), len(node_list)))
-        subgraph = self.graph.subgraph(node_list)
-
-        if self.directed:
-            for e in subgraph.es:
-                weights[e.tuple] = e[attribute_name]
-        #  Symmetrize if subgraph is undirected
-        else:
-            for e in subgraph.es:
-                weights[e.tuple] = e[attribute_name]
-                weights[e.tuple[1], e.tuple[0]] = e[attribute_name]
-
-        return weights
+        #  Rows and columns follow the order of node_list (igraph's subgraph
+        #  would silently sort the nodes)
+        nodes = np.asarray(node_list, dtype=int)
+        return self.link_attribute(attribute_name)[nodes, :][:, nodes]
 
     def cross_link_attribute(self, attribute_name, node_list1, node_list2):
         """
